@@ -2,7 +2,13 @@
   C17 — command steps report exit status faithfully and in declaration order.
 
   Property theorems only (helper lemmas: Props/Lemmas/C17_Serial.lean, C17_Async.lean, C17_Wait.lean,
-  C17_Trace.lean, C17_Parse.lean, C17_Files.lean).
+  C17_Trace.lean, C17_Parse.lean, C17_Files.lean, C17_Dup.lean).
+
+  **Identical entries.** No statement below assumes that the commands, instructions or process ids of a step
+  are distinct: an id names the content of an instruction, a configuration may hold it any number of times,
+  and `started` / `errors` / `trace` / the results are lists in which an id occurs once per *process*
+  (`parse_preserves_length`, `parse_keeps_duplicates`, `parse_lanes`, `async_starts_every_occurrence`,
+  `async_cfg_starts_every_entry` say so explicitly; their examples hold duplicates).
   Every statement is for *all* command lists (single string, expanded maps, `run:` lists,
   nested serial sub-lists), *all* scripted outcomes — exit status over `Int` (0, positive exit
   codes, **negative = killed by a signal**), "cannot be started at all" (the spawn call raises), or
@@ -24,6 +30,7 @@ import Props.Lemmas.C17_Wait
 import Props.Lemmas.C17_Trace
 import Props.Lemmas.C17_Parse
 import Props.Lemmas.C17_Files
+import Props.Lemmas.C17_Dup
 
 set_option linter.unusedSimpArgs false
 
@@ -101,6 +108,14 @@ example : (runSerial [S [P 1 0 "" "", P 2 1 "" "", P 3 0 "" ""] false false, S [
     = [1] ∧
   (runSerial [S [P 1 0 "" "", PU 2 0, P 3 0 "" ""] true true, S [P 4 0 "" ""] false false]).started
     = [1, 2] := by decide +kernel
+
+/-- identical instructions in the serial steps: `[w, w]` runs `w` twice; `[ok, fail, the same fail]` stops at
+    the first failure, with `save` one result per command run. -/
+example : (runSerial [S [P 1 0 "" ""] false false, S [P 1 0 "" ""] false false]).started = [1, 1] ∧
+    (runSerial [S [P 1 0 "x" "", P 1 0 "x" ""] true true]).results.map (·.id) = [1, 1] ∧
+    (runSerial [S [P 2 0 "" "", P 1 3 "" "", P 1 3 "" ""] true true]).started = [2, 1] ∧
+    (runSerial [S [P 2 0 "" "", P 1 3 "" "", P 1 3 "" ""] true true]).err = some (.exit 1 3) := by
+  decide +kernel
 
 /-- "Succeeds iff every command it *ran* exited 0", on the commands actually attempted (the
     declaration prefix through the first one that stops the loop): the step succeeds iff each of them
@@ -404,6 +419,57 @@ example :
               ("e", false, false), ("f", false, false)] := by
   decide +kernel
 
+/-- **One command per declared entry.** For a list (or tuple) configuration the constructor builds exactly one
+    command per item, position by position: the `i`-th command is the one `parseItem` makes of the `i`-th
+    item, whatever the other items are — an item equal to an earlier one is *not* dropped or merged. -/
+theorem parse_preserves_length (async dflt : Bool) (cfg : Val) (xs : List Val) (cs : List RawCommand)
+    (hseq : cfg = .list xs ∨ cfg = .tuple xs)
+    (h : parseCmdConfig async dflt (some cfg) = some (.ok cs)) :
+    cs.length = xs.length ∧
+    ∀ (i : Nat) (v : Val), xs[i]? = some v → ∃ c, cs[i]? = some c ∧ parseItem async dflt v = some (.ok c) := by
+  have hp : Pointwise (fun v c => parseItem async dflt v = some (.ok c)) xs cs := by
+    cases hseq with
+    | inl e => subst e; exact parseItems_forall₂ async dflt xs cs h
+    | inr e => subst e; exact parseItems_forall₂ async dflt xs cs h
+  exact ⟨hp.length_eq, hp.get⟩
+
+/-- … in particular the same item at two positions `i`, `j` gives the same command at both positions `i`
+    and `j` of the command list: both are there. -/
+theorem parse_keeps_duplicates (async dflt : Bool) (cfg : Val) (xs : List Val) (cs : List RawCommand)
+    (hseq : cfg = .list xs ∨ cfg = .tuple xs)
+    (h : parseCmdConfig async dflt (some cfg) = some (.ok cs))
+    (i j : Nat) (v : Val) (hi : xs[i]? = some v) (hj : xs[j]? = some v) :
+    ∃ c, cs[i]? = some c ∧ cs[j]? = some c ∧ parseItem async dflt v = some (.ok c) := by
+  obtain ⟨_, hget⟩ := parse_preserves_length async dflt cfg xs cs hseq h
+  obtain ⟨c, hc, hv⟩ := hget i v hi
+  obtain ⟨c', hc', hv'⟩ := hget j v hj
+  rw [hv] at hv'
+  simp only [Option.some.injEq, Except.ok.injEq] at hv'
+  subst hv'
+  exact ⟨c, hc, hc', hv⟩
+
+/-- **One lane per declared entry.** The units of concurrency the constructor builds (`rawLanes`: a top-level
+    instruction, a top-level serial sub-list, each element of a map's `run`) are the ones a three-line reading
+    of the configuration value gives (`lanesSpec`, a `flatMap`/`map` — multiplicities are those of the
+    value), in declaration order. -/
+theorem parse_lanes (async dflt : Bool) (cfg : Val) (cs : List RawCommand)
+    (h : parseCmdConfig async dflt (some cfg) = some (.ok cs)) : rawLanes cs = lanesSpec cfg :=
+  parse_lanes' async dflt cfg cs h
+
+/-- the same instruction twice; the same sub-list twice; the same map twice; duplicates inside a `run` list. -/
+example :
+    parseCmdConfig true false (some (.list [.str "w", .str "w"])) =
+      some (.ok [⟨.single "w", simpleSettings false⟩, ⟨.single "w", simpleSettings false⟩]) ∧
+    (parseCmdConfig true false (some (.list [.list [.str "a", .str "b"], .list [.str "a", .str "b"]]))).map
+        (fun r => match r with | .ok cs => cs.length | .error _ => 0) = some 2 ∧
+    lanesSpec (.list [.str "w", .list [.str "a", .str "b"], .str "w", .list [.str "a", .str "b"],
+                      .dict [(.str "run", .list [.str "w", .str "w", .list [.str "a", .str "a"]])],
+                      .dict [(.str "run", .list [.str "w", .str "w", .list [.str "a", .str "a"]])]])
+      = [["w"], ["a", "b"], ["w"], ["a", "b"], ["w"], ["w"], ["a", "a"], ["w"], ["w"], ["a", "a"]] ∧
+    flattenSpec (.list [.str "w", .str "w", .dict [(.str "run", .list [.str "w", .str "w"])]])
+      = [("w", false, false), ("w", false, false), ("w", false, false), ("w", false, false)] := by
+  refine ⟨rfl, ?_, ?_, ?_⟩ <;> decide +kernel
+
 /-- The constructor's error branches. -/
 example :
     parseCmdConfig false false none = some (.error excNoKey) ∧
@@ -702,6 +768,60 @@ example :
     (runAsync cs [1, 0, 1]).trace = [.start 1, .start 2, .fin 2, .start 3, .fin 1, .fin 3] ∧
     seqEvents (ranP false [P 2 0 "" "", P 3 0 "" ""]) = [.start 2, .fin 2, .start 3, .fin 3] := by
   decide +kernel
+
+/-- **Every declared occurrence is started.** Whatever the schedule:
+    * the trace begins with one start event per lane whose first instruction can be started, in declaration
+      order (`filterMap` over the lanes: two equal lanes give two events);
+    * over the whole trace, an id is started exactly as often as processes of that instruction had to exist
+      (lane by lane, the startable ones of the prefix through the first instruction that stops the lane). -/
+theorem async_starts_every_occurrence (cs : List ACommand) (s : List Nat) :
+    (∃ rest, (runAsync cs s).trace =
+        ((lanesOf cs).filterMap (fun l => firstRunnable l.procs)).map Event.start ++ rest) ∧
+    ∀ i, ((runAsync cs s).trace.filterMap startId).count i =
+      ((lanesOf cs).flatMap (fun l => (ranP l.dec l.procs).map (·.id))).count i := by
+  constructor
+  · obtain ⟨rest, hrest⟩ := (async_all_started cs s).1
+    exact ⟨rest, by rw [hrest, startEvents_filterMap]⟩
+  · intro i
+    have hperm := (trace_wellformed cs s).2.1
+    rw [hperm.count_eq, async_sublist_prefix]
+
+/-- **From the configuration: every top-level entry is started.** For a configuration the constructor of
+    `cmds` / `shells` accepts, all of whose output files can be opened and all of whose instructions can be
+    started: whatever the schedule, the trace begins with the start of the first instruction of every declared
+    (non-empty) lane — `lanesSpec cfg`, equal entries included —, in declaration order, before any process has
+    been waited for. -/
+theorem async_cfg_starts_every_entry (dflt : Bool) (w : World) (cfg : Val) (cs : List RawCommand)
+    (s : List Nat) (h : parseCmdConfig true dflt (some cfg) = some (.ok cs))
+    (ho : ∀ c ∈ cs, (w.redirect c.set).openError = none) (hs : ∀ str, (w.proc str).spawn = none) :
+    ∃ rest, (runAsync (cs.map (RawCommand.toA w)) s).trace =
+      ((lanesSpec cfg).filterMap List.head?).map (fun str => Event.start (w.proc str).id) ++ rest := by
+  obtain ⟨rest, hrest⟩ := (async_all_started (cs.map (RawCommand.toA w)) s).1
+  exact ⟨rest, by rw [hrest, startEvents_procs, lanesOf_toA w cs ho, launch_resolved w hs,
+    parse_lanes true dflt cfg cs h]⟩
+
+/-- `[fail, ok, the same fail]` as three top-level entries with `save`: three processes, two errors, three
+    results in declaration order — for every schedule (here: the reverse order of completion);
+    the same serial sub-list twice: both run; two identical instructions inside one serial sub-list. -/
+example :
+    let f := P 1 3 "boom" ""
+    let cs : List ACommand := [A (.single f) true true, A (.single (P 2 0 "fine" "")) true true, A (.single f) true true]
+    (runAsync cs [2, 1, 0]).trace = [.start 1, .start 2, .start 1, .fin 1, .fin 2, .fin 1] ∧
+    (runAsync cs [2, 1, 0]).started = [1, 2, 1] ∧
+    (runAsync cs [2, 1, 0]).errors = [.exit 1 3, .exit 1 3] ∧
+    (runAsync cs [2, 1, 0]).cmdOut = some [.one (.res ⟨1, 3, .text "boom", .bytes ""⟩),
+      .one (.res ⟨2, 0, .text "fine", .bytes ""⟩), .one (.res ⟨1, 3, .text "boom", .bytes ""⟩)] ∧
+    (let sub := Entry.serial [P 1 0 "" "", P 2 0 "" ""]
+     (runAsync [A (.many [sub, sub]) false false] [1, 0]).trace
+       = [.start 1, .start 1, .fin 1, .start 2, .fin 1, .start 2, .fin 2, .fin 2]) ∧
+    (runAsync [A (.many [.serial [P 1 0 "" "", P 1 0 "" ""]]) false false] []).started = [1, 1] ∧
+    ((runAsync cs [0]).trace.filterMap startId).count 1 = 2 := by
+  decide +kernel
+
+/-- from the configuration value: `cmds: [w, w, [a, b], [a, b]]`. -/
+example :
+    (lanesSpec (.list [.str "w", .str "w", .list [.str "a", .str "b"], .list [.str "a", .str "b"]])).filterMap List.head?
+      = ["w", "w", "a", "a"] := by decide +kernel
 
 /-- One aggregate error lists every failure: the errors are, command by command, the exception of an
     output file that could not be opened, or else — lane by lane — the instructions attempted that exited
